@@ -46,10 +46,15 @@ Inductive ecase :=
 | ECTrace (expect_importable : bool) (tr : trace)
           (ir : result row)        (* CallTraceRow.from_trace(tr) by /repo *)
           (ib : result dtrace)     (* .to_trace() of that row by /repo *)
-          (text_same : bool).      (* CallTraceRow.from_trace of a copy of tr — argument dict built in reverse insertion
+          (text_same : bool)       (* CallTraceRow.from_trace of a copy of tr — argument dict built in reverse insertion
                                       order, every TypedDict below an argument / return / yield type with its fields
                                       reversed, same construction site — stores exactly the same arg_types,
                                       return_type and yield_type STRINGS (the store de-duplicates rows by text) *)
+          (store_same : bool)      (* SQLiteStore.add([tr]) on a fresh database followed by filter(module, qualname) gives
+                                      back exactly one row with the same five TEXT fields, which decodes to the same
+                                      trace as the in-memory row (true when from_trace raised) *)
+| ECAfter (c : ecase).             (* c is to be judged in the SECOND world: the import environment after the fixture
+                                      module has been reloaded (rows written before the reload are decoded after it) *)
 
 (* ---------- comparisons ---------- *)
 Definition is_opaque_name (s : string) : bool :=
@@ -205,13 +210,16 @@ Definition trace_prop_ok (tr : trace) (ir : result row) (ib : result dtrace) : b
   | _, _ => false
   end.
 
-Definition verdict_trace (expect : bool) (tr : trace) (ir : result row) (ib : result dtrace) (text_same : bool) : nat :=
+Definition verdict_trace (expect : bool) (tr : trace) (ir : result row) (ib : result dtrace)
+           (text_same store_same : bool) : nat :=
   if negb (forallb well_formed (trace_types tr) && nodup_strb (map fst (tr_args tr))) then 3 else
   let in_scope := expect && forallb (fun t => encodable t && all_importable t) (trace_types tr) in
   if in_scope && negb (trace_prop_ok tr ir ib) then 2
   (* rows are a function of the structure: same stored text whatever the insertion orders were.  This clause
      needs no importable function, only serialisable types *)
   else if forallb (fun t => encodable t && all_importable t) (trace_types tr) && negb text_same then 2
+  (* ... and the row survives the real store: written, read back, decoded *)
+  else if forallb (fun t => encodable t && all_importable t) (trace_types tr) && negb store_same then 2
   else
     (* the by-construction label of the fixture and the model's notion of an importable function agree *)
     if negb (Bool.eqb expect (importable_funcb fn ev (tr_func tr))) then 1 else
@@ -226,17 +234,26 @@ Definition verdict (c : ecase) : nat :=
   match c with
   | ECType site t ij id rj pj ps => verdict_type site t ij id rj pj ps
   | ECDecode j id => verdict_decode j id
-  | ECTrace e tr ir ib ts => verdict_trace e tr ir ib ts
+  | ECTrace e tr ir ib ts ss => verdict_trace e tr ir ib ts ss
+  | ECAfter _ => 3
   end.
 
 Definition kf_class (c : ecase) : nat :=
   match c with
   | ECType _ t ij id _ pj ps => if ps then kf_type t ij id pj else (if has_tuplevar t then 1 else 0)
   | ECDecode _ _ => 0
-  | ECTrace _ tr _ _ _ => if existsb has_tuplevar (trace_types tr) then 1 else 0
+  | ECAfter _ => 0
+  | ECTrace _ tr _ _ _ _ => if existsb has_tuplevar (trace_types tr) then 1 else 0
   end.
 
 Definition verdict_tagged (c : ecase) : nat :=
   let v := verdict c in
   if Nat.eqb v 2 then 2 + 10 * kf_class c else v.
 End Verdict.
+
+(* two worlds: before and after the reload of the fixture module *)
+Definition verdict_tagged2 (w1 w2 : world) (c : ecase) : nat :=
+  match c with
+  | ECAfter c' => verdict_tagged w2 c'
+  | _ => verdict_tagged w1 c
+  end.
